@@ -44,3 +44,10 @@ Definition s_call {R' R S : Type} (f : sflow R' unit) (k : sd -> sflow R S) : sf
   | SFuel d => SFuel d
   | SCont d _ => SBad d
   end.
+
+(* a call of a translated public method whose result is ignored: an exception (or running out of fuel) propagates *)
+Definition s_after {R S : Type} (p : sd * result) (k : sd -> sflow R S) : sflow R S :=
+  match snd p with
+  | RRaised _ | RFuel => SRaise (fst p) (snd p)
+  | _ => k (fst p)
+  end.
